@@ -88,6 +88,11 @@ fn bal(w: &World, user: usize, mint: &Pubkey) -> u64 {
     w.users[user].tokens.iter().find(|(m, _)| m == mint).map(|(_, t)| w.balance(t)).unwrap_or(0)
 }
 
+thread_local! {
+    /// Traded events of the single swaps executed by `single` since the last `take`
+    static SINGLE_EVENTS: std::cell::RefCell<Vec<super::c06::TradedEv>> = const { std::cell::RefCell::new(vec![]) };
+}
+
 fn single(w: &mut World, pool: usize, user: usize, sp: &SwapParams, v2: bool) -> Result<(u64, u64), u64> {
     let pl = w.pools[pool].clone();
     let (mi, mo) = if sp.a_to_b { (pl.mint_a.key, pl.mint_b.key) } else { (pl.mint_b.key, pl.mint_a.key) };
@@ -97,6 +102,7 @@ fn single(w: &mut World, pool: usize, user: usize, sp: &SwapParams, v2: bool) ->
     if !o.ok() {
         return Err(o.code().unwrap());
     }
+    SINGLE_EVENTS.with(|e| e.borrow_mut().extend(o.events.iter().filter_map(|x| super::c06::parse_traded(x))));
     Ok((i0 - bal(w, user, &mi), bal(w, user, &mo) - o0))
 }
 
@@ -149,6 +155,7 @@ pub fn check_case(c: &TwoHopCase, l: &mut Local, bounds_only: bool) -> Result<()
         return check_fee_two_hop(c, &s, &oa, (in0, mid0, out0), (bal(&wa, s.user, &s.m_in), bal(&wa, s.user, &s.m_mid), bal(&wa, s.user, &s.m_out)), l);
     }
     // --- clone B: the two singles with a matching intermediate amount ---
+    SINGLE_EVENTS.with(|e| e.borrow_mut().clear());
     let mut wb = s.h.w.clone();
     let neutral = |amount: u64, a_to_b: bool, limit: u128, exact_in: bool| SwapParams { amount, threshold: SwapParams::neutral_threshold(exact_in), sqrt_price_limit: limit, exact_in, a_to_b };
     let singles: Result<((u64, u64), (u64, u64)), (u8, u64)> = if p.exact_in {
@@ -217,6 +224,21 @@ pub fn check_case(c: &TwoHopCase, l: &mut Local, bounds_only: bool) -> Result<()
         if let Some(d) = diff_banks(&wa.bank, &wb.bank) {
             return Err(format!("state after the two-hop differs from the two single swaps: {d}"));
         }
+        // the trade records of the two legs are those of the two single swaps (C06: the record reports exactly the amounts moved)
+        let key = |e: &super::c06::TradedEv| (e.whirlpool, e.a_to_b, e.input_amount, e.output_amount);
+        let mut ea: Vec<super::c06::TradedEv> = oa.events.iter().filter_map(|x| super::c06::parse_traded(x)).collect();
+        // exact-out: the dry run of leg two also went through `single`; only the last two records belong to the executed singles
+        let mut eb: Vec<super::c06::TradedEv> = SINGLE_EVENTS.with(|e| e.borrow().clone());
+        let n = eb.len();
+        if n > 2 {
+            eb = eb.split_off(n - 2);
+        }
+        ea.sort_by_key(key);
+        eb.sort_by_key(key);
+        if ea != eb {
+            return Err(format!("trade records of the two-hop {ea:?} differ from those of the two single swaps {eb:?}"));
+        }
+        l.count("trade_records_compared");
     }
     // outer bounds (C03) and thresholds
     if p.exact_in && in0 - in1 > p.amount {
